@@ -306,17 +306,13 @@ class TransportMixIn(object):
             pass
         else:
             for (key, value) in extra_headers:
-                additional_headers[key] = value
+                additional_headers[str(key).lower()] = str(value)
 
-        # Prepare the merged dictionary
+        # Prepare the merged dictionary: keys are normalized while merging, so
+        # that the latest pushed definition wins whatever its letter case
         for headers in self.additional_headers:
-            additional_headers.update(headers)
-
-        # Normalize keys and values
-        additional_headers = dict(
-            (str(key).lower(), str(value))
-            for key, value in additional_headers.items()
-        )
+            for key, value in headers.items():
+                additional_headers[str(key).lower()] = str(value)
 
         # Remove forbidden keys
         for forbidden in self.readonly_headers:
